@@ -34,6 +34,8 @@ type script struct {
 	Deps    [][]int `json:"deps"`
 	Enabled []bool  `json:"enabled"`
 	Steps   []step  `json:"steps"`
+	Eager   bool    `json:"eager"` // issue the next API call as soon as the previous one has returned, even if the
+	// script (the model) expected callbacks to finish first: an early return is then followed by the next call
 }
 
 type outcome struct {
@@ -259,7 +261,33 @@ func main() {
 	}
 
 	const patience = 400 * time.Millisecond
-	for _, st := range sc.Steps {
+	steps := append([]step{}, sc.Steps...)
+	for len(steps) > 0 {
+		st := steps[0]
+		steps = steps[1:]
+		if sc.Eager && st.Op == "finish" && started {
+			// give the manager a moment to return, if it is going to
+			for k := 0; k < 25 && callsInFlight() > 0; k++ {
+				time.Sleep(200 * time.Microsecond)
+			}
+		}
+		if sc.Eager && st.Op == "finish" && started && callsInFlight() == 0 {
+			// no manager call is running although the model still expects this callback to finish inside one:
+			// pull the next API call of the script forward
+			for j, nx := range steps {
+				if nx.Op == "shutdown" || nx.Op == "manage" {
+					steps = append(append([]step{nx}, steps[:j]...), steps[j+1:]...)
+					steps = append(steps, st)
+					st = steps[0]
+					steps = steps[1:]
+					note("call returned early: next API call pulled forward", nx)
+					break
+				}
+				if nx.Op == "toggle" {
+					break
+				}
+			}
+		}
 		switch st.Op {
 		case "start", "manage", "shutdown":
 			if !waitIdle(patience) {
